@@ -76,12 +76,14 @@ Definition conv_model (c : conv_case) : res (typemap * list opinfo) :=
                  (sort_by op_name (map (pre_op sch) (v_ops c))).
 
 (* the hypotheses of Proofs/ConvertNoPanicFull.v (the strong form, which implies those of
-   Proofs/ConvertNoPanic.v) hold of the program as exported (every type name,
-   fragment and root type resolves): what the validator guarantees for an accepted document *)
+   Proofs/ConvertNoPanic.v: strong_wf_implies_weak) hold of the program as exported (every type name,
+   fragment and root type resolves): what the validator guarantees for an accepted document;
+   and every exported position is inside the exported source it indexes ([pos_okb] against
+   [v_srcs]: the lines parsePrecedingComment splits the source into) *)
 Definition conv_wf (c : conv_case) : bool :=
   let sch := v_schema c in
   let frs := map (pre_frag sch) (v_frags c) in
-  schema_okb sch && frags_okb2 sch frs && forallb (op_okb2 sch frs) (map (pre_op sch) (v_ops c)).
+  schema_okb sch && frags_okb2 sch frs (v_srcs c) && forallb (op_okb2 sch frs (v_srcs c)) (map (pre_op sch) (v_ops c)).
 
 Definition conv_agrees (c : conv_case) : bool :=
   conv_wf c &&
